@@ -23,8 +23,8 @@ pub fn prop() -> Prop {
             Sub::tape("primitives_display_scale", 40, 3_000, 150_000, display_scale).with_fp(),
             Sub::tape("thick_polylines_triangles", 24, 300_000, 15_000_000, thick_joins),
             Sub::tape("images", 120, 30_000, 1_500_000, |d, cx| run(d, cx, 2)),
-            Sub::tape("text_random", 60, 100_000, 5_000_000, |d, cx| run(d, cx, 3)),
-            Sub::tape("text_spaced_fonts", 60, 60_000, 3_000_000, text_spaced_fonts),
+            Sub::tape("text_random", 300, 100_000, 5_000_000, |d, cx| run(d, cx, 3)),
+            Sub::tape("text_spaced_fonts", 300, 60_000, 3_000_000, text_spaced_fonts),
             Sub::enumerate("fonts_matrix", fonts_matrix),
         ],
     }
